@@ -42,7 +42,29 @@ def gen_cfg(rng, profile="faithful"):
         for m in take:
             m["cfg"] = cfgs[-1]["id"]
     # sets: random nesting of the items
-    return dict(nodes=nodes, cfgs=cfgs, nfiles=rng.randint(1, 2), set_layout=rng.randint(0, 3), inj_err=None, seed_note=profile)
+    cfg = dict(nodes=nodes, cfgs=cfgs, nfiles=rng.randint(1, 2), set_layout=rng.randint(0, 3), inj_err=None, seed_note=profile)
+    # a second injector in the same package, for the sub-graph below one provider (shares providers with the first;
+    # a bound implementation is requested directly, so its provider is listed without the Bind)
+    cfg["second"] = None
+    cfg["second_first"] = False
+    if rng.chance(0.5):
+        cands = [nd["id"] for nd in nodes if nd["id"] != 0 and nd["kind"] in ("fn", "fnerr", "bind")
+                 and not any(nodes[d]["kind"] == "fieldsof" for d in subtree(nodes, nd["id"]))]
+        binds = [c for c in cands if nodes[c]["kind"] == "bind"]
+        if cands:
+            cfg["second"] = rng.choice(binds) if binds and rng.chance(0.6) else rng.choice(cands)
+            cfg["second_first"] = rng.chance(0.3)
+    return cfg
+
+def subtree(nodes, r):
+    seen, todo = [], [r]
+    while todo:
+        x = todo.pop()
+        if x in seen:
+            continue
+        seen.append(x)
+        todo.extend(nodes[x]["deps"])
+    return sorted(seen)
 
 def ctype(nd):
     """type under which consumers see node nd"""
@@ -176,10 +198,30 @@ def render(cfg, pkgname):
             else:
                 wire_files["sets.go"] = shdr + s1 + s2
             wire_files["wire.go"] = hdr + body
+    if cfg.get("second") is not None:
+        r = cfg["second"]
+        sub = subtree(N, r)
+        its2 = []
+        for i in sub:
+            it = item(N[i])
+            if i == r and N[i]["kind"] == "bind":
+                it = it[:1]                      # requested as *T directly: the binding would be unused
+            its2.extend(it)
+        args2 = [N[i] for i in sub if N[i]["kind"] == "arg"]
+        err2 = any(N[i]["err"] for i in sub)
+        ret2 = "(*T%d, error)" % r if err2 else "*T%d" % r
+        body2 = "func Init2(%s) %s {\n\twire.Build(%s)\n\treturn %s\n}\n" % (
+            ", ".join("a%d *T%d" % (nd["id"], nd["id"]) for nd in args2), ret2, ", ".join(its2), "nil, nil" if err2 else "nil")
+        w = wire_files["wire.go"]
+        if cfg.get("second_first"):
+            k = w.index("func Init(")
+            wire_files["wire.go"] = w[:k] + body2 + "\n" + w[k:]
+        else:
+            wire_files["wire.go"] = w + "\n" + body2
     files.update(wire_files)
-    return files, dict(args=[nd["id"] for nd in args], inj_err=inj_err, wire_files=sorted(wire_files))
+    return files, dict(args=[nd["id"] for nd in args], inj_err=inj_err, wire_files=sorted(wire_files), second=cfg.get("second"))
 
-def expected_term(cfg):
+def expected_term(cfg, root=0):
     """reference: what google/wire's injector computes (written from wire's documented resolution)"""
     N = cfg["nodes"]
     def term(i):
@@ -197,18 +239,21 @@ def expected_term(cfg):
             return "A%d" % i
         if k == "fieldsof":
             return "C%d.F%d" % (nd["cfg"], i)
-    return term(0)
+    return term(root)
 
 def describe(cfg):
     N = cfg["nodes"]
     return " ".join("%d:%s%s%s(%s)" % (nd["id"], nd["kind"], "" if nd["name_style"] == "New" else "/" + nd["name_style"],
                                         "/value" if nd.get("form") == "value" else "", ",".join(map(str, nd["deps"]))) for nd in N) + \
-        " layout=%d files=%d" % (cfg["set_layout"], cfg["nfiles"])
+        " layout=%d files=%d" % (cfg["set_layout"], cfg["nfiles"]) + \
+        ("" if cfg.get("second") is None else " second=%d%s" % (cfg["second"], "(first)" if cfg.get("second_first") else ""))
 
 
-def encode(cfg):
-    """the configuration in the line format of the Lean wire/migrate model (Driver.lean, `W` lines)"""
+def encode(cfg, root=0):
+    """the configuration in the line format of the Lean wire/migrate model (Driver.lean, `W` lines);
+    root != 0: the second injector (sub-graph below `root`, requested as *T<root>, root's own Bind left out)"""
     N = cfg["nodes"]
+    keep = set(subtree(N, root)) if root else None
     def ty(nd):
         c = ctype(nd)
         if c.startswith("I"):
@@ -219,11 +264,18 @@ def encode(cfg):
     items, pkg, args = [], [], []
     for nd in N:
         i, k = nd["id"], nd["kind"]
+        if keep is not None and i not in keep:
+            if k in ("fn", "fnerr", "bind"):
+                name = (1000 + i) if nd["name_style"] == "New" else (5000 + i)
+                pkg.append("%d p%d : %s" % (name, i, " ".join(ty(N[d]) for d in nd["deps"])))
+                if nd.get("decoy"):
+                    pkg.append("%d p%d : b0 b1" % (1000 + i, i))
+            continue
         if k in ("fn", "fnerr", "bind"):
             name = (1000 + i) if nd["name_style"] == "New" else (5000 + i)
             f = "%d p%d : %s" % (name, i, " ".join(ty(N[d]) for d in nd["deps"]))
             items.append("f " + f); pkg.append(f)
-            if k == "bind":
+            if k == "bind" and not (root and i == root):
                 items.append("b %d p%d" % (i, i))
             if nd.get("decoy"):
                 pkg.append("%d p%d : b0 b1" % (1000 + i, i))
@@ -236,8 +288,10 @@ def encode(cfg):
         elif k == "arg":
             args.append("p%d" % i)
     for c in cfg["cfgs"]:
+        if keep is not None:
+            continue
         t = 100 + c["id"]
         f = "%d %s%d :" % (8000 + c["id"], "p" if c["form"] == "ptr" else "v", t)
         items.append("f " + f); pkg.append(f)
         items.append("o %d %d : %s" % (t, 1 if c["form"] == "ptr" else 0, " ".join("p%d" % j for j in c["fields"])))
-    return "ret p0 | args %s | pkg %s | items %s" % (" ".join(args), " ; ".join(pkg), " ; ".join(items))
+    return "ret p%d | args %s | pkg %s | items %s" % (root, " ".join(args), " ; ".join(pkg), " ; ".join(items))
